@@ -1168,7 +1168,60 @@ fn v4fail(ctx: &C4Ctx, code: &str, what: &str, pkt: &str, bytes: &[u8]) {
 }
 
 /// broker round trip of a frame: decode, re-encode, decode again; returns the re-encoded bytes
+/// What the broker's decoded value must show (fragments of its `Debug` rendering, in the
+/// broker's own field names) for a packet value of the client library: a projection that does
+/// not go through the broker's encoder, so that an error the broker makes symmetrically in
+/// reading and writing a field cannot cancel out.
+fn broker_view(kind: &str, pkid: u16, extra: Vec<String>) -> Vec<String> {
+    let mut v = vec![format!("{kind} {{ pkid: {pkid}")];
+    v.extend(extra);
+    v
+}
+
+fn expect_in_broker_c4(p: &c4::Packet) -> Vec<String> {
+    match p {
+        c4::Packet::Publish(p) => vec![format!(
+            "Publish {{ dup: {:?}, qos: {:?}, pkid: {}, retain: {:?}, topic: {:?}, payload: {:?} }}",
+            p.dup,
+            p.qos,
+            p.pkid,
+            p.retain,
+            Bytes::copy_from_slice(p.topic.as_bytes()),
+            p.payload
+        )],
+        c4::Packet::Subscribe(s) => broker_view("Subscribe", s.pkid, s.filters.iter().map(|f| format!("Filter {{ path: {:?}, qos: {:?},", f.path, f.qos)).collect()),
+        c4::Packet::Unsubscribe(u) => vec![format!("Unsubscribe {{ pkid: {}, filters: {:?} }}", u.pkid, u.topics)],
+        c4::Packet::Connect(c) => vec![format!("Connect {{ keep_alive: {}, client_id: {:?}, clean_session: {:?} }}", c.keep_alive, c.client_id, c.clean_session)],
+        c4::Packet::PubAck(a) => broker_view("PubAck", a.pkid, vec![]),
+        c4::Packet::PubRec(a) => broker_view("PubRec", a.pkid, vec![]),
+        c4::Packet::PubRel(a) => broker_view("PubRel", a.pkid, vec![]),
+        c4::Packet::PubComp(a) => broker_view("PubComp", a.pkid, vec![]),
+        _ => vec![],
+    }
+}
+
+fn expect_in_broker_c5(p: &c5::Packet) -> Vec<String> {
+    match p {
+        c5::Packet::Publish(p) => vec![format!(
+            "Publish {{ dup: {:?}, qos: {:?}, pkid: {}, retain: {:?}, topic: {:?}, payload: {:?} }}",
+            p.dup, p.qos, p.pkid, p.retain, p.topic, p.payload
+        )],
+        c5::Packet::Subscribe(s) => broker_view("Subscribe", s.pkid, s.filters.iter().map(|f| format!("Filter {{ path: {:?}, qos: {:?},", f.path, f.qos)).collect()),
+        c5::Packet::Unsubscribe(u) => vec![format!("Unsubscribe {{ pkid: {}, filters: {:?} }}", u.pkid, u.filters)],
+        c5::Packet::Connect(c, ..) => vec![format!("Connect {{ keep_alive: {}, client_id: {:?}, clean_session: {:?} }}", c.keep_alive, c.client_id, c.clean_start)],
+        c5::Packet::PubAck(a) => broker_view("PubAck", a.pkid, vec![]),
+        c5::Packet::PubRec(a) => broker_view("PubRec", a.pkid, vec![]),
+        c5::Packet::PubRel(a) => broker_view("PubRel", a.pkid, vec![]),
+        c5::Packet::PubComp(a) => broker_view("PubComp", a.pkid, vec![]),
+        _ => vec![],
+    }
+}
+
 fn broker_loop(ctx: &C4Ctx, bytes: &[u8], v5: bool, pkt: &str) -> Option<Vec<u8>> {
+    broker_loop_expect(ctx, bytes, v5, pkt, &[])
+}
+
+fn broker_loop_expect(ctx: &C4Ctx, bytes: &[u8], v5: bool, pkt: &str, expect: &[String]) -> Option<Vec<u8>> {
     let codec = if v5 { Codec::B5 } else { Codec::B4 };
     let mut buf = BytesMut::from(bytes);
     buf.extend_from_slice(&[0xAA, 0xBB]); // sentinel: must stay untouched
@@ -1188,6 +1241,15 @@ fn broker_loop(ctx: &C4Ctx, bytes: &[u8], v5: bool, pkt: &str) -> Option<Vec<u8>
     if &buf[..] != [0xAA, 0xBB] {
         v4fail(ctx, "broker_consumed_wrong_length", &format!("{} left {} bytes of a frame + 2 sentinel bytes", codec.name(), buf.len()), pkt, bytes);
         return None;
+    }
+    if !expect.is_empty() {
+        let dbg = format!("{p:?}");
+        for e in expect {
+            if !dbg.contains(e.as_str()) {
+                v4fail(ctx, "broker_decodes_differently", &format!("{} decoded {}, which does not show {e}", codec.name(), dbg.chars().take(300).collect::<String>()), pkt, bytes);
+                return None;
+            }
+        }
     }
     let mut out = BytesMut::new();
     let written = catch(|| if v5 { bp::v5::V5.write(p.clone(), &mut out) } else { bp::v4::V4.write(p.clone(), &mut out) });
@@ -1252,7 +1314,7 @@ pub fn run_c04(tier: Tier) -> i32 {
         }
         ctx.nontrivial.fetch_add(1, Ordering::Relaxed);
         // client -> broker -> client
-        if let Some(back) = broker_loop(&ctx, &b, false, &pkt) {
+        if let Some(back) = broker_loop_expect(&ctx, &b, false, &pkt, &expect_in_broker_c4(p)) {
             let mut r = BytesMut::from(&back[..]);
             ctx.evals.fetch_add(1, Ordering::Relaxed);
             match catch(|| c4::Packet::read(&mut r, usize::MAX)) {
@@ -1283,7 +1345,7 @@ pub fn run_c04(tier: Tier) -> i32 {
             other => return v4fail(&ctx, "client_roundtrip", &format!("rumqttc v5 does not read back what it wrote ({} bytes left): {:?}", r.len(), other.map(|r| r.map(|p| format!("{p:?}").chars().take(200).collect::<String>()))), &pkt, &b),
         }
         ctx.nontrivial.fetch_add(1, Ordering::Relaxed);
-        if let Some(back) = broker_loop(&ctx, &b, true, &pkt) {
+        if let Some(back) = broker_loop_expect(&ctx, &b, true, &pkt, &expect_in_broker_c5(p)) {
             let mut r = BytesMut::from(&back[..]);
             ctx.evals.fetch_add(1, Ordering::Relaxed);
             match catch(|| c5::Packet::read(&mut r, None)) {
